@@ -22,10 +22,13 @@ def tol_of(cfg: Dict[str, Any]) -> Tuple[float, float]:
 class Classes:
     """Factor classes per (cfg, slot): equal within tolerance -> same id."""
 
-    def __init__(self) -> None:
+    def __init__(self, raw: bool = False) -> None:
         self.rep: Dict[Tuple[int, str], List[float]] = {}
+        self.raw = raw
 
-    def cls(self, key: Tuple[int, str], f: float, tol: float) -> int:
+    def cls(self, key: Tuple[int, str], f: float, tol: float) -> Any:
+        if self.raw:
+            return ["raw", float(f)]      # resolved later by the parent process (resolve_raw)
         reps = self.rep.setdefault(key, [])
         for i, r in enumerate(reps):
             if abs(f - r) <= tol * max(abs(r), 1e-300):
@@ -90,3 +93,37 @@ def error_events(cid0: int, rng: random.Random) -> Tuple[List[List[Any]], List[D
         kind, _, arg = c["expect"].partition(":")
         ev.append(["err", c["op"], cid0 + i, arg, 0, int(o["err"] is not None), 0, 0, 0, 0, 0, kind])
     return ev, cfgs
+
+
+# ---------------------------------------------------------------------- process-history independence
+def _other_history_worker(args: Tuple[List[Dict[str, Any]], bool, bool, int]) -> List[Tuple[int, List[List[Any]]]]:
+    """Runs in a FRESH interpreter: the same configurations in REVERSE order, one data draw each."""
+    import torch
+
+    cfgs, want_fwd, want_bwd, threads = args
+    torch.set_num_threads(threads)
+    torch.manual_seed(0)
+    classes = Classes(raw=True)
+    out = []
+    for cid in range(len(cfgs), 0, -1):
+        ev, _ = events_for_cfg(cid, cfgs[cid - 1], want_fwd, want_bwd, classes, draws=((0, 0),))
+        out.append((cid, ev))
+    return out
+
+
+def other_history_events(cfgs: List[Dict[str, Any]], want_fwd: bool, want_bwd: bool, classes: Classes, threads: int = 4) -> List[List[Any]]:
+    """"A scalar fixed by shapes and hyper-parameters alone" cannot depend on what the process did before: the configurations
+    are run again in a fresh interpreter in reverse order and their events join the SAME call log (same configuration ids),
+    so that ScaledOps_Trace's memo rejects a factor that differs between the two histories."""
+    import multiprocessing as mp
+
+    with mp.get_context("spawn").Pool(1) as pool:
+        res = pool.apply(_other_history_worker, ((cfgs, want_fwd, want_bwd, threads),))
+    events: List[List[Any]] = []
+    for cid, ev in res:
+        _, ct = tol_of(cfgs[cid - 1])
+        for e in ev:
+            if isinstance(e[4], list) and e[4] and e[4][0] == "raw":
+                e[4] = classes.cls((cid, e[3]), e[4][1], ct)
+            events.append(e)
+    return events
